@@ -7,6 +7,7 @@ import (
 	"errors"
 	"fmt"
 	"hash/crc32"
+	"net"
 	"net/netip"
 	"strconv"
 	"strings"
@@ -166,6 +167,29 @@ func vCandSide(s string) (Candidate, bool) {
 	return nil, false
 }
 
+// vAddrKey prints a netip.Addr so that two addresses print alike iff they are ==: the 4 or 16 address
+// bytes, then "%" and the zone if there is one (a 4-in-6 address is never passed here un-Unmapped, so
+// the length tells z4 from z6).
+func vAddrKey(a netip.Addr) string {
+	k := "k" + hex.EncodeToString(a.AsSlice())
+	if z := a.Zone(); z != "" {
+		k += "25" + hex.EncodeToString([]byte(z))
+	}
+
+	return k
+}
+
+// vResolvedKey is the IP addrEqual looks at for a candidate whose resolved address was built from ip
+// the way the constructors build it (IP: ip.AsSlice(), Zone: ip.Zone()).
+func vResolvedKey(a net.Addr) string {
+	rip, _, _, err := parseAddr(a)
+	if err != nil {
+		return "-"
+	}
+
+	return vAddrKey(rip)
+}
+
 func vCandExec(o *vOut, t []string) string {
 	if len(t) < 2 {
 		return "bad-op"
@@ -188,6 +212,36 @@ func vCandExec(o *vOut, t []string) string {
 		o.stat("cls.v6")
 
 		return "6"
+	case t[1] == "canon" && len(t) == 3:
+		s, ok := vUnH(t[2])
+		if !ok {
+			return "bad-op"
+		}
+		ip, err := netip.ParseAddr(s)
+		if err != nil {
+			o.stat("canon.invalid")
+			return "0 - - -"
+		}
+		cls := "6"
+		if ip.Unmap().Is4() {
+			cls = "4"
+		}
+		can := canonicalAddr(ip)
+		switch {
+		case can != ip && ip.Zone() != "":
+			o.stat("canon.zone-dropped")
+		case can != ip:
+			o.stat("canon.unmapped")
+		case ip.Zone() != "":
+			o.stat("canon.zone-kept")
+		default:
+			o.stat("canon.same")
+		}
+		// srflx / relay store a *net.UDPAddr literal, host / prflx call createAddr
+		viaUDP := vResolvedKey(&net.UDPAddr{IP: ip.AsSlice(), Port: 9, Zone: ip.Zone()})
+		viaTCP := vResolvedKey(createAddr(NetworkTypeTCP4, ip, 9))
+
+		return cls + " " + vAddrKey(can) + " " + viaUDP + " " + viaTCP
 	case t[1] == "crc" && len(t) == 3:
 		s, ok := vUnH(t[2])
 		if !ok {
@@ -251,6 +305,25 @@ func vCandExec(o *vOut, t []string) string {
 		r := vBit(a.Equal(a)) + vBit(a.DeepEqual(a)) + vBit(b.Equal(b)) + vBit(b.DeepEqual(b)) +
 			vBit(a.Equal(b)) + vBit(b.Equal(a)) + vBit(a.DeepEqual(b)) + vBit(b.DeepEqual(a))
 		o.stat("eq." + r[4:])
+
+		return r
+	case t[1] == "eq3" && len(t) == 5:
+		a, ok1 := vCandSide(t[2])
+		b, ok2 := vCandSide(t[3])
+		c, ok3 := vCandSide(t[4])
+		if !ok1 || !ok2 || !ok3 {
+			o.stat("eq3.side-err")
+			return "side-err"
+		}
+		ps := [][2]Candidate{{a, b}, {b, c}, {a, c}, {b, a}, {c, b}, {c, a}}
+		r := ""
+		for _, p := range ps {
+			r += vBit(p[0].Equal(p[1]))
+		}
+		for _, p := range ps {
+			r += vBit(p[0].DeepEqual(p[1]))
+		}
+		o.stat("eq3.E" + r[0:3] + ".D" + r[6:9])
 
 		return r
 	}
@@ -320,6 +393,74 @@ var (
 	vCandTTVals = []string{"active", "passive", "so", "ACTIVE", "Passive", "sO", "", "bogus", "activ", "so ", "actİve"}
 )
 
+// vCandFamilies: every row lists literal forms of ONE canonical address (canonicalAddr: Unmap, zone kept
+// only on IPv6 link-local), or strings that are no IP literal at all; different rows are different
+// addresses, most of them near misses of a neighbouring row (other zone, zone on link-local vs global,
+// IPv4-compatible instead of IPv4-mapped, upper-case zone, mDNS names that differ in case).
+var vCandFamilies = [][]string{
+	{"10.0.0.1", "::ffff:10.0.0.1", "::ffff:a00:1", "0:0:0:0:0:ffff:a00:1", "::FFFF:10.0.0.1", "0000:0000:0000:0000:0000:ffff:0a00:0001",
+		"::ffff:10.0.0.1%z", "::FFFF:A00:1%eth0", "0:0:0:0:0:ffff:10.0.0.1"},
+	{"1.2.3.4", "::ffff:1.2.3.4", "::ffff:102:304", "::ffff:1.2.3.4%z", "0::ffff:0102:0304"},
+	{"::1.2.3.4", "::102:304", "0:0:0:0:0:0:1.2.3.4", "::0102:0304%eth0"}, // IPv4-compatible: stays IPv6
+	{"64:ff9b::1.2.3.4", "64:ff9b::102:304", "64:FF9B:0:0:0:0:102:304"},
+	{"0.0.0.0", "::ffff:0.0.0.0", "::ffff:0:0", "0:0:0:0:0:ffff::"},
+	{"::", "0:0:0:0:0:0:0:0", "0::", "::0", "::0.0.0.0", "::%z"},
+	{"::1", "0:0:0:0:0:0:0:1", "::0:1", "::1%lo", "0000::0001", "::0.0.0.1"},
+	{"2001:db8::7", "2001:DB8:0:0:0:0:0:7", "2001:0db8:0000:0000:0000:0000:0000:0007", "2001:db8:0::7", "2001:db8::0:7", "2001:db8::7%eth0",
+		"2001:Db8::7%1", "2001:db8::0.0.0.7"},
+	{"2001:db8::70", "2001:db8::0070"},
+	{"fe80::1", "FE80::1", "fe80:0:0:0:0:0:0:1", "fe80::0:1", "fe80::0.0.0.1"},
+	{"fe80::1%eth0", "FE80:0::1%eth0", "fe80:0:0:0:0:0:0:1%eth0"},
+	{"fe80::1%eth1", "Fe80::1%eth1"},
+	{"fe80::1%ETH0", "fe80::0001%ETH0"},
+	{"fe80::1%eth0%x", "FE80::1%eth0%x"},
+	{"febf::1%eth0", "FEBF::1%eth0"}, // still fe80::/10
+	{"fec0::1%eth0", "fec0::1", "FEC0::1%eth1"}, // site-local: zone dropped
+	{"ff02::1%eth0", "FF02:0::1%eth0"}, // link-local multicast: zone kept
+	{"ff02::1", "ff02::0:1"},
+	{"ff02::1%eth1"},
+	{"ff12::1%eth0", "FF12::1%eth0"}, // flags 1, scope 2: link-local multicast too
+	{"ff05::1%eth0", "ff05::1", "FF05::1%eth1"}, // site-local multicast: zone dropped
+	{"169.254.1.1", "::ffff:169.254.1.1", "::ffff:169.254.1.1%eth0", "::ffff:a9fe:101%eth1"}, // IPv4 link-local: Unmap drops the zone
+	{"192.168.1.77", "::ffff:192.168.1.77", "::ffff:c0a8:14d"},
+	{"255.255.255.255", "::ffff:255.255.255.255", "::ffff:ffff:ffff", "::FFFF:FFFF:FFFF"},
+	{"ffff:ffff:ffff:ffff:ffff:ffff:ffff:ffff", "FFFF:FFFF:FFFF:FFFF:FFFF:FFFF:255.255.255.255"},
+	// names that are no IP literal (host candidates only): equal to themselves only
+	{"a.local"}, {"A.local"}, {"a.local."}, {"x.invalid"}, {".local"}, {"10.0.0.1.local"}, {"::ffff:10.0.0.1.local"}, {"fe80::1.local"},
+	// IP literals whose ZONE makes the host constructor take them for an mDNS name (resolved address nil)
+	{"2001:db8::7%x.local", "2001:DB8::7%y.local", "2001:db8::7%z.invalid"},
+	{"fe80::1%x.local", "FE80::1%x.local"},
+	{"fe80::1%y.local"},
+	{"::ffff:10.0.0.1%x.local", "::ffff:a00:1%y.local"},
+}
+
+// strings no constructor accepts (side-err on eq lines; sampled by cls / canon)
+var vCandNoAddr = []string{"", "1.2.3", "01.2.3.4", "g::1", "fe80::1%", "%eth0", "10.0.0.1%eth0", "::ffff:10.0.0.1:", "1.2.3.4.", "local"}
+
+func vCandAllLiterals() []string {
+	var l []string
+	for _, f := range vCandFamilies {
+		l = append(l, f...)
+	}
+
+	return l
+}
+
+// vCandLiteral draws an address: mostly another member of the family of `like` (if it has one), else any listed literal.
+func vCandLiteral(r *vRand, like string) string {
+	if r.chance(2, 3) {
+		for _, f := range vCandFamilies {
+			for _, m := range f {
+				if m == like {
+					return vPick(r, f)
+				}
+			}
+		}
+	}
+
+	return vPick(r, vPick(r, vCandFamilies))
+}
+
 func vPick[T any](r *vRand, l []T) T { return l[r.intn(len(l))] }
 
 // vCandDefault is the base point of the one-dimension-at-a-time sweep.
@@ -345,6 +486,8 @@ func vCandRandom(r *vRand, wild bool) vCandSpec {
 		s.addr = fmt.Sprintf("%d.%d.%d.%d", r.intn(256), r.intn(256), r.intn(256), r.intn(256))
 	case 2:
 		s.addr = fmt.Sprintf("%x:%x::%x", r.intn(65536), r.intn(65536), r.intn(65536))
+	case 3:
+		s.addr = vPick(r, vPick(r, vCandFamilies))
 	}
 	if s.typ == "host" {
 		if r.chance(1, 2) {
@@ -430,6 +573,58 @@ func vCandText(r *vRand) string {
 	return s
 }
 
+// vCandSpell writes a random IPv6 (or IPv4-mapped) address in a random one of its literal forms.
+func vCandSpell(r *vRand) string {
+	var g [8]int
+	for i := range g {
+		if r.chance(1, 2) {
+			g[i] = vPick(r, []int{0, 1, 0xffff, 0xa00, 0x102, 0xdb8, 7, 0x10, 0xabcd})
+		} else if r.chance(1, 2) {
+			g[i] = r.intn(65536)
+		}
+	}
+	switch r.intn(8) {
+	case 0, 1:
+		g[0] = vPick(r, []int{0xfe80, 0xfe81, 0xfebf, 0xfec0, 0xfe7f, 0xfe00})
+	case 2:
+		g[0] = vPick(r, []int{0xff02, 0xff12, 0xfff2, 0xff01, 0xff05, 0xff20, 0xfe02})
+	case 3, 4:
+		g = [8]int{0, 0, 0, 0, 0, vPick(r, []int{0xffff, 0xffff, 0xffff, 0, 0xfffe}), g[6], g[7]}
+	}
+	fm := vPick(r, []string{"%x", "%x", "%X", "%04x", "%04X"})
+	parts := make([]string, 8)
+	for i, v := range g {
+		parts[i] = fmt.Sprintf(fm, v)
+	}
+	n := 8
+	if r.chance(1, 3) { // dotted tail
+		parts[6] = fmt.Sprintf("%d.%d.%d.%d", g[6]>>8, g[6]&255, g[7]>>8, g[7]&255)
+		parts = parts[:7]
+		n = 7
+	}
+	a := strings.Join(parts, ":")
+	if r.chance(2, 3) { // compress one run of zero groups (not necessarily the longest or the first)
+		for try := 0; try < 4; try++ {
+			i := r.intn(n)
+			if g[i] != 0 || (n == 7 && i == 6) {
+				continue
+			}
+			j := i
+			for j+1 < n && g[j+1] == 0 && !(n == 7 && j+1 == 6) && r.chance(3, 4) {
+				j++
+			}
+			a = strings.Join(parts[:i], ":") + "::" + strings.Join(parts[j+1:], ":")
+
+			break
+		}
+	}
+	if r.chance(1, 3) {
+		a += "%" + vPick(r, []string{"eth0", "eth1", "1", "ETH0", "x.local", "z%z"})
+	}
+
+	return a
+}
+
 var vCandMutBytes = []byte(" 0159:.%+/azAZ\x00\n\r\t\xc3\xa9\xff\xc2\x80-")
 
 func vCandMutate(r *vRand, s string) string {
@@ -509,7 +704,7 @@ func vCandGen(o *vOut, r *vRand, thorough bool, _ []string, emit func(string)) {
 			s.addr = "a.local"
 			rt(s)
 		}
-		for _, v := range append(append([]string{}, vCandAddrs...), vCandBadAddrs...) {
+		for _, v := range append(append(append([]string{}, vCandAddrs...), vCandBadAddrs...), vCandAllLiterals()...) {
 			s := d
 			s.addr = v
 			rt(s)
@@ -586,9 +781,16 @@ func vCandGen(o *vOut, r *vRand, thorough bool, _ []string, emit func(string)) {
 		}
 	}
 	// 3. address classifier and CRC samples
-	for _, a := range append(append([]string{}, vCandAddrs...), vCandBadAddrs...) {
+	for _, a := range append(append(append(append([]string{}, vCandAddrs...), vCandBadAddrs...), vCandAllLiterals()...), vCandNoAddr...) {
 		emit("cand cls " + vH(a))
+		emit("cand canon " + vH(a))
 		emit("cand crc " + vH("host"+a+"udp4"))
+	}
+	// ... and the literals as they arrive in a candidate line (the parser cuts the zone off)
+	for _, a := range vCandAllLiterals() {
+		parseText := "a 1 udp 1 " + a + " 5 typ host"
+		emit("cand parse " + vH(parseText))
+		emit("cand parse " + vH("a 1 tcp 1 "+a+" 5 typ srflx raddr "+a+" rport 5"))
 	}
 	nAddr, nRT, nText, nMut, nRaw := 6000, 20000, 10000, 40000, 6000
 	if thorough {
@@ -597,9 +799,18 @@ func vCandGen(o *vOut, r *vRand, thorough bool, _ []string, emit func(string)) {
 	addrBytes := []byte("0123456789abcdefABCDEF:.%:.:.0g ")
 	for i := 0; i < nAddr; i++ {
 		var a string
-		switch r.intn(4) {
+		switch r.intn(7) {
 		case 0:
 			a = vCandMutate(r, vPick(r, vCandAddrs))
+		case 4, 5:
+			a = vCandMutate(r, vPick(r, vPick(r, vCandFamilies)))
+			if r.chance(1, 2) {
+				a = vCandMutate(r, vCandSpell(r))
+			}
+		case 3, 6:
+			// a valid literal re-spelt: 8 groups (link-local / multicast / mapped / ordinary prefixes), random case,
+			// leading zeros, one run of zero groups compressed, dotted tail, zone
+			a = vCandSpell(r)
 		case 1:
 			n := r.intn(5) + 2
 			p := make([]string, n)
@@ -613,6 +824,9 @@ func vCandGen(o *vOut, r *vRand, thorough bool, _ []string, emit func(string)) {
 			if r.chance(1, 8) {
 				a += "%" + vPick(r, []string{"", "eth0", "1"})
 			}
+			if r.chance(1, 6) {
+				a = vPick(r, []string{"fe80::", "FE80:", "ff02::", "::ffff:", "::FFFF:", "febf:", "fec0::"}) + a
+			}
 		default:
 			n := r.intn(24)
 			b := make([]byte, n)
@@ -622,6 +836,7 @@ func vCandGen(o *vOut, r *vRand, thorough bool, _ []string, emit func(string)) {
 			a = string(b)
 		}
 		emit("cand cls " + vH(a))
+		emit("cand canon " + vH(a))
 		if i%8 == 0 {
 			emit("cand crc " + vH(a))
 		}
@@ -752,7 +967,127 @@ func vCandEqGen(o *vOut, r *vRand, thorough bool, _ []string, emit func(string))
 			}
 		}
 	}
-	// 4. random pairs: unrelated, near copies, built vs parsed
+	// 4. literal forms of one address (2a786b2): every listed literal against every other, for eq and deep-eq
+	lits := vCandAllLiterals()
+	xsA := [][2]string{{"generation", "0"}, {"ufrag", "x"}}
+	xsB := [][2]string{{"ufrag", "x"}, {"generation", "0"}}
+	xsC := [][2]string{{"ufrag", "y"}, {"generation", "0"}}
+	for ti, typ := range vCandTypes {
+		for ni, nw := range []string{"udp", "tcp"} {
+			for i, la := range lits {
+				for j, lb := range lits {
+					// all pairs for host/udp and srflx/udp; elsewhere a third of them
+					if !(ni == 0 && ti < 2) && (i+2*j+ti)%3 != 0 {
+						continue
+					}
+					a, b := vCandDefault(typ), vCandDefault(typ)
+					a.net, b.net, a.addr, b.addr = nw, nw, la, lb
+					a.exts = xsA
+					switch (i + j) % 4 {
+					case 0:
+						b.exts = xsA
+					case 1, 2:
+						b.exts = xsB // permuted: DeepEqual whenever Equal
+					default:
+						b.exts = xsC // Equal at most
+					}
+					eq(bs(a), bs(b))
+				}
+			}
+		}
+	}
+	// ... built against parsed (the parser cuts the zone off), and related addresses in two literal forms
+	// (CandidateRelatedAddress.Equal compares strings)
+	for _, typ := range vCandTypes {
+		for _, fam := range vCandFamilies {
+			for _, la := range fam {
+				for _, lb := range fam {
+					a := vCandDefault(typ)
+					a.addr = la
+					text := "a 1 udp 1 " + lb + " 9 typ " + typ
+					if typ != "host" {
+						text += " raddr 10.9.9.9 rport 9"
+					}
+					eq(bs(a), ps(text))
+					if typ != "host" {
+						b := a
+						a.raddr, b.raddr = la, lb
+						eq(bs(a), bs(b))
+					}
+				}
+			}
+		}
+	}
+	// 5. transitivity: triples inside one family, two members + a near miss, and mixed
+	eq3 := func(a, b, c string) { emit("cand eq3 " + a + " " + b + " " + c) }
+	mk := func(typ, nw, addr string, xs [][2]string) string {
+		s := vCandDefault(typ)
+		s.net, s.addr, s.exts = nw, addr, xs
+		return bs(s)
+	}
+	for fi, fam := range vCandFamilies {
+		other := vCandFamilies[(fi+1)%len(vCandFamilies)]
+		for ti, typ := range vCandTypes {
+			nw := []string{"udp", "tcp"}[(fi+ti)%2]
+			for i := range fam {
+				a, b, c := fam[i], fam[(i+1)%len(fam)], fam[(i+2)%len(fam)]
+				eq3(mk(typ, nw, a, xsA), mk(typ, nw, b, xsB), mk(typ, nw, c, xsA))
+				eq3(mk(typ, nw, a, xsA), mk(typ, nw, b, xsB), mk(typ, nw, c, xsC))
+				eq3(mk(typ, nw, a, nil), mk(typ, nw, other[i%len(other)], nil), mk(typ, nw, b, nil))
+				eq3(mk(typ, nw, a, nil), mk(typ, nw, b, nil), mk(typ, nw, other[i%len(other)], nil))
+				eq3(mk(typ, nw, a, nil), ps("a 1 "+nw+" 1 "+b+" 9 typ "+typ+" raddr 10.9.9.9 rport 9"), mk(typ, nw, c, nil))
+				eq3(mk(typ, nw, a, nil), mk(vCandTypes[(ti+1)%4], nw, b, nil), mk(typ, nw, c, nil))
+			}
+		}
+	}
+	// the chain literal ~ literal-with-mDNS-looking-zone ~ other such zone (host: resolved address nil on two of them)
+	for _, typ := range vCandTypes {
+		for _, tr := range [][3]string{{"2001:db8::7", "2001:db8::7%x.local", "2001:DB8::7%y.local"}, {"2001:db8::7%x.local", "2001:db8::7", "2001:DB8::7%y.local"},
+			{"2001:db8::7%x.local", "2001:DB8::7%y.local", "2001:db8::7"}, {"fe80::1%x.local", "FE80::1%x.local", "fe80::1%y.local"},
+			{"::ffff:10.0.0.1%x.local", "10.0.0.1", "::ffff:a00:1%y.local"}, {"a.local", "A.local", "a.local"}, {"a.local", "10.0.0.1.local", "10.0.0.1"}} {
+			eq3(mk(typ, "udp", tr[0], nil), mk(typ, "udp", tr[1], nil), mk(typ, "udp", tr[2], nil))
+			eq3(mk(typ, "tcp", tr[0], xsA), mk(typ, "tcp", tr[1], xsB), mk(typ, "tcp", tr[2], xsA))
+		}
+	}
+	n3 := 6000
+	if thorough {
+		n3 = 300000
+	}
+	for i := 0; i < n3; i++ {
+		a := vCandRandom(r, false)
+		if r.chance(3, 4) {
+			a.addr = vPick(r, vPick(r, vCandFamilies))
+		}
+		vary := func(s vCandSpec) vCandSpec {
+			t := s
+			t.addr = vCandLiteral(r, s.addr)
+			switch r.intn(10) {
+			case 0:
+				t.typ = vPick(r, vCandTypes)
+			case 1:
+				t.tt = r.intn(4)
+			case 2:
+				t.port = vPick(r, vCandPorts)
+			case 3:
+				t.net = vPick(r, vCandNets)
+			case 4:
+				if len(t.exts) > 1 {
+					t.exts = append(append([][2]string{}, s.exts[1:]...), s.exts[0])
+				}
+			case 5:
+				t.exts = append(append([][2]string{}, s.exts...), [2]string{"k", vPick(r, vCandVals)})
+			}
+
+			return t
+		}
+		b := vary(a)
+		c := vary(b)
+		if r.chance(1, 2) {
+			c = vary(a)
+		}
+		eq3(bs(a), bs(b), bs(c))
+	}
+	// 6. random pairs: unrelated, near copies, built vs parsed
 	n := 15000
 	if thorough {
 		n = 900000
@@ -779,6 +1114,8 @@ func vCandEqGen(o *vOut, r *vRand, thorough bool, _ []string, emit func(string))
 		case 5:
 			rel := vPick(r, vCandRel)
 			b.raddr, b.rport = rel.a, rel.p
+		case 6:
+			b.addr = vCandLiteral(r, a.addr)
 		}
 		sa, sb := bs(a), bs(b)
 		if r.chance(1, 3) {
